@@ -194,8 +194,15 @@ func main() {
 					e.Beh = scen.FaultBeh("A", "body-stall", 4000, 2000, chunked, map[bool]string{false: "application/json", true: "text/event-stream"}[chunked])
 					e.Beh.StallMs = 700
 					sc.EPs = append(sc.EPs, e)
-					if r.Bool() {
-						sc.EPs = append(sc.EPs, mkEP(1, "ok", r, bal))
+					if r.Bool() { // a second endpoint that stalls the same way (whichever is selected, the client leaves mid-stream)
+						e2 := scen.EPSpec{Name: "B", Prio: 200}
+						if bal != "priority" {
+							e.Prio, e2.Prio = 100, 100
+							sc.EPs[0].Prio = 100
+						}
+						e2.Beh = scen.FaultBeh("B", "body-stall", 4000, 2000, chunked, map[bool]string{false: "application/json", true: "text/event-stream"}[chunked])
+						e2.Beh.StallMs = 700
+						sc.EPs = append(sc.EPs, e2)
 					}
 					scs = append(scs, sc)
 					fam = append(fam, "abort")
